@@ -2,7 +2,7 @@ import LaytheVerif.Model.ListFwd
 /-!
 `drv_listfwd`: one history per input line (micro-operations separated by `;`), one output line:
 
-  `MODEL o1,o2,…|SPEC o1,o2,…|grows=G scans=S stale=K halted=0/1 e10=p1,p2,…`
+  `MODEL o1,o2,…|SPEC o1,o2,…|grows=G scans=S stale=K halted=0/1 raises=R e10=p1,p2,…`
 
 `MODEL` is the exact model's prediction of every observation (`print`), `SPEC` the same history on
 the Spec machine (lists never relocate, so address = immutable identity).  `e10` lists, per
@@ -54,6 +54,13 @@ def parseOp (s : String) : Option Op :=
   | ["send", n] => n.toNat?.map .send
   | ["recv", n] => n.toNat?.map .recv
   | ["jf", n] => n.toNat?.map .jf
+  | ["cneg", n] => n.toNat?.map .cneg
+  | ["cfrac", n] => n.toNat?.map .cfrac
+  | ["tryb"] => some .tryb
+  | ["trye", n] => n.toNat?.map .trye
+  | ["catchb"] => some .catchb
+  | ["endc"] => some .endc
+  | ["say", n] => n.toNat?.map .say
   | _ => none
 
 def staleIn (h : Heap) (vs : List Val) : Nat := (vs.filter (fun v => !fresh h v)).length
@@ -85,7 +92,8 @@ def runAll (reloc : Bool) (ops : List Op) : Acc :=
     let g := p.grows a.h
     let r := p.run a.h
     let clean := a.clean && (g == 0 || staleCount r.2 r.1 == 0)
-    let e10 := if op == .print && !a.m.halted && a.m.skip == 0 then (if a.clean then "1" else "0") :: a.e10 else a.e10
+    let observes := match op with | .print => true | .say _ => true | _ => false
+    let e10 := if observes && !a.m.halted && !a.m.unwinding && a.m.skip == 0 then (if a.clean then "1" else "0") :: a.e10 else a.e10
     { h := r.2, m := r.1, grows := a.grows + g, clean := clean, e10 := e10 }) {}
 
 def handle (line : String) : String :=
@@ -98,7 +106,7 @@ def handle (line : String) : String :=
     let a := runAll true ops
     let s := runAll false ops
     "MODEL " ++ String.intercalate "," a.m.out.reverse ++ "|SPEC " ++ String.intercalate "," s.m.out.reverse ++
-      s!"|grows={a.grows} scans={a.m.scans} stale={staleCount a.h a.m} halted={if a.m.halted then 1 else 0} e10=" ++
+      s!"|grows={a.grows} scans={a.m.scans} stale={staleCount a.h a.m} halted={if a.m.halted then 1 else 0} raises={a.m.raises} e10=" ++
       String.intercalate "," a.e10.reverse
 
 end Driver.ListFwd
